@@ -141,7 +141,35 @@ func bigCookie(n int) string {
 	return b.String()
 }
 
-func runApp(ctx context.Context, cancel context.CancelFunc, c *req.Client, sp *ReqSpec, k int, rt *reqRuntime) {
+// slowCloseBody is a request body of unknown length whose Close reports that it was called and
+// then waits for another request to finish (Request.Body.Close may take arbitrarily long).
+type slowCloseBody struct {
+	chunkReader
+	rt      *reqRuntime
+	waitFor *reqRuntime
+}
+
+func (b *slowCloseBody) Close() error {
+	b.rt.closeOnce.Do(func() { close(b.rt.closeAsked) })
+	if b.waitFor != nil {
+		select {
+		case <-b.waitFor.done:
+		case <-time.After(holdWait):
+		}
+	}
+	return nil
+}
+
+func waitCh(ctx context.Context, ch chan struct{}) {
+	select {
+	case <-ch:
+	case <-ctx.Done():
+	case <-time.After(holdWait):
+	}
+}
+
+func runApp(ctx context.Context, cancel context.CancelFunc, c *req.Client, sp *ReqSpec, k int, rt *reqRuntime, rts []*reqRuntime) {
+	defer rt.doneOnce.Do(func() { close(rt.done) })
 	defer rt.appDone.Store(true)
 	fail := func(err error) { rt.errStr.Store(err.Error()) }
 	if sp.StartDelayUs > 0 {
@@ -154,6 +182,12 @@ func runApp(ctx context.Context, cancel context.CancelFunc, c *req.Client, sp *R
 		case <-time.After(holdWait):
 		}
 	}
+	if sp.AfterClose > 0 && sp.AfterClose <= len(rts) {
+		waitCh(ctx, rts[sp.AfterClose-1].closeAsked)
+	}
+	if sp.AfterDone > 0 && sp.AfterDone <= len(rts) {
+		waitCh(ctx, rts[sp.AfterDone-1].done)
+	}
 	r := c.R().SetContext(ctx)
 	if sp.BigHeader > 0 {
 		r.SetHeader("Cookie", bigCookie(sp.BigHeader))
@@ -161,7 +195,9 @@ func runApp(ctx context.Context, cancel context.CancelFunc, c *req.Client, sp *R
 	method := "GET"
 	if sp.Upload >= 0 {
 		method = "POST"
-		if sp.UnknownLen {
+		if sp.SlowClose > 0 && sp.SlowClose <= len(rts) {
+			r.SetBody(&slowCloseBody{chunkReader: chunkReader{left: sp.Upload, chunk: 70001}, rt: rt, waitFor: rts[sp.SlowClose-1]})
+		} else if sp.UnknownLen {
 			r.SetBody(&chunkReader{left: sp.Upload, chunk: 70001})
 		} else {
 			r.SetBodyBytes(make([]byte, sp.Upload))
@@ -257,7 +293,7 @@ func runScenario(sc *Scenario) (res *result) {
 	cliEnd, peerEnd := newPipe(sc.C2PBuf, 0)
 	rts := make([]*reqRuntime, len(sc.Reqs))
 	for i := range rts {
-		rts[i] = &reqRuntime{release: make(chan struct{})}
+		rts[i] = &reqRuntime{release: make(chan struct{}), closeAsked: make(chan struct{}), done: make(chan struct{})}
 		if sc.Reqs[i].Gated {
 			rts[i].gate = make(chan struct{})
 		}
@@ -288,7 +324,7 @@ func runScenario(sc *Scenario) (res *result) {
 					rts[k].appDone.Store(true)
 				}
 			}()
-			runApp(rctx, rcancel, client, &sc.Reqs[k], k, rts[k])
+			runApp(rctx, rcancel, client, &sc.Reqs[k], k, rts[k], rts)
 		}(k)
 	}
 	done := make(chan struct{})
